@@ -45,7 +45,8 @@ Qed.
 Definition mcbody (ats : Z) (_ : Z) (e : string * Z) (st : list (string * Z) * list (string * Z))
   : ctl (list (string * Z) * list (string * Z)) (list (string * Z) * list (string * Z)) :=
   let '(k, ts) := e in let '(deleted, r) := st in
-  if (negb (k =? "*")%string && (ats >=? ts)%Z) then Cont (deleted ++ [(k, ts)], go_mdel r k) else Cont (deleted, r).
+  let '(deleted, r) := (if (negb (k =? "*")%string && (ats >=? ts)%Z) then (deleted ++ [(k, ts)], go_mdel r k) else (deleted, r)) in
+  Cont (deleted, r).
 
 Lemma remove_notin k (m : rmap) : ~ In k (map fst m) -> remove k m = m.
 Proof.
@@ -93,3 +94,23 @@ Proof.
   rewrite (mcloop ats r [] 0%Z Hwf). reflexivity.
 Qed.
 
+
+(* ---------- the wrappers on AccountClaims and Export (a possibly-nil map reads as the empty one) ---------- *)
+Definition claim_iat (c : option (string * Z)) : Z := match c with Some (_, iat) => iat | None => 0%Z end.
+Definition claim_sub (c : option (string * Z)) : string := match c with Some (s, _) => s | None => "" end.
+Definition claim_nil (c : option (string * Z)) : bool := match c with None => true | Some _ => false end.
+
+Lemma src_acct_is_claim_revoked (h : holder) (c : option (string * Z)) :
+  V2.AccountClaims_IsClaimRevoked (h_map h) (claim_iat c) (claim_sub c) (claim_nil c) = is_claim_revoked h c.
+Proof.
+  unfold V2.AccountClaims_IsClaimRevoked, V2.AccountClaims_isRevoked, is_claim_revoked, h_is_revoked.
+  destruct c as [[sub iat]|]; cbn [claim_iat claim_sub claim_nil orb]; [|reflexivity].
+  rewrite src_is_revoked. reflexivity.
+Qed.
+Lemma src_export_is_claim_revoked (h : holder) (c : option (string * Z)) :
+  V2.Export_IsClaimRevoked (claim_iat c) (claim_sub c) (claim_nil c) (h_map h) = is_claim_revoked h c.
+Proof.
+  unfold V2.Export_IsClaimRevoked, V2.Export_isRevoked, is_claim_revoked, h_is_revoked.
+  destruct c as [[sub iat]|]; cbn [claim_iat claim_sub claim_nil orb]; [|reflexivity].
+  rewrite src_is_revoked. reflexivity.
+Qed.
